@@ -197,6 +197,7 @@ def main(run):
     run.regen()
     run.prove()
     run.run_findings()
+    run.pylite(["reassembly"])
     rng = common.Rng(run.seed)
     from nxslib.proto.serialframe import SerialFrame
 
